@@ -26,7 +26,40 @@ pub fn gen_executed_request(
     points: &[crate::verif::nodes::outstation::PointCfg],
     to: Dest,
 ) -> Op {
-    let (func, headers): (u8, Vec<ReqHeader>) = match rng.below(16) {
+    let (func, headers): (u8, Vec<ReqHeader>) = match rng.below(17) {
+        16 => {
+            // device attributes: WRITE of a writable / read-only / undefined attribute, READ of one, of all, of the list
+            let write = rng.bool();
+            let (set, var, value): (u8, u8, Vec<u8>) = match rng.below(6) {
+                0 => (0, 245, vec![1, 4, b'h', b'e', b'r', b'e']),
+                1 => (1, 1, vec![2, 4, 9, 0, 0, 0]),
+                2 => (1, 3, vec![4, 4, 0, 0, 0x40, 0x40]),
+                3 => (1, 5, vec![6, 1, 0x5A]),
+                4 => (0, 250, vec![1, 1, b'x']), // read-only
+                _ => (2, 9, vec![2, 1, 1]),       // undefined
+            };
+            if write {
+                (
+                    refapp::FUNC_WRITE,
+                    vec![ReqHeader {
+                        group: 0,
+                        var,
+                        range: Range::Range8(set, set),
+                        data: value,
+                    }],
+                )
+            } else {
+                (
+                    refapp::FUNC_READ,
+                    vec![ReqHeader {
+                        group: 0,
+                        var: *rng.pick(&[var, 254, 255]),
+                        range: if rng.bool() { Range::Range8(set, set) } else { Range::All },
+                        data: vec![],
+                    }],
+                )
+            }
+        }
         0 => (
             refapp::FUNC_WRITE,
             vec![ReqHeader {
